@@ -250,7 +250,9 @@ func ReceivePack(
 		_ = opts.Hooks.PostReceive(ctx, info)
 	}
 
-	if err := sendReportStatus(writeCloser, firstErr, cmdStatus); err != nil {
+	// The pack was unpacked successfully at this point; a rejected command
+	// is reported in its own "ng" line, not as an unpack failure.
+	if err := sendReportStatus(writeCloser, nil, cmdStatus); err != nil {
 		return err
 	}
 
